@@ -122,10 +122,20 @@ func runC05(t *testing.T, rng *rand.Rand, rec *sim.Rec, tier string, caseNo int)
 		segRng := rand.New(rand.NewSource(rng.Int63())) // used only by the server's reader, under the pipe lock
 		c.TCP.Peer().SetSeg(func(avail int) int { return 1 + segRng.Intn(avail) })
 	}
-	pChan, _ := w.NewPeer("pchan", net.IPv4(10, 2, 0, 1).To4(), 7000)
-	pPerm, _ := w.NewPeer("pperm", net.IPv4(10, 2, 0, 2).To4(), 7001)
-	pOtherPort, _ := w.NewPeer("pchan-otherport", net.IPv4(10, 2, 0, 1).To4(), 7002)
-	resp := m.Allocate(c, sim.AllocOpts{})
+	// every fourth case relays over IPv6 (an IPv6 relayed address requested over the IPv4 path,
+	// IPv6 peers): the attribution travels in XOR-PEER-ADDRESS, whose IPv6 form depends on the
+	// transaction id as well
+	v6 := (caseNo/2)%4 == 3
+	ip1, ip2 := net.IPv4(10, 2, 0, 1).To4(), net.IPv4(10, 2, 0, 2).To4()
+	opts := sim.AllocOpts{}
+	if v6 {
+		ip1, ip2 = net.ParseIP("fd00:2::1"), net.ParseIP("fd00:2::2")
+		opts.Family = 2
+	}
+	pChan, _ := w.NewPeer("pchan", ip1, 7000)
+	pPerm, _ := w.NewPeer("pperm", ip2, 7001)
+	pOtherPort, _ := w.NewPeer("pchan-otherport", ip1, 7002)
+	resp := m.Allocate(c, opts)
 	if resp == nil || resp.Class != wire.ClassSuccess {
 		rec.Inconclusive("setup allocate failed")
 
@@ -307,12 +317,45 @@ func runC05E2E(t *testing.T, rng *rand.Rand, rec *sim.Rec, tier string, caseNo i
 		rec.EvN("e2e-datagrams-compared", 2*n)
 		rec.FP("e2e/%s/burst=%d/tcp=%v", phase, min(n/10, 3), overTCP)
 	}
+	// a second socket on the peer's host that the client never writes to: its datagrams are
+	// admitted by the host's permission and travel in Data indications, never in ChannelData
+	alt, _ := w.NewPeer("alt", peer.Addr.IP, 7900)
+	indications := func(phase string) {
+		n := 1 + rng.Intn(6)
+		var sent [][]byte
+		for i := 0; i < n; i++ {
+			l := pick(rng, []int{0, 1, 5, 40, 1200})
+			a := make([]byte, l)
+			rng.Read(a)
+			sent = append(sent, a)
+			_, _ = alt.UDP.WriteTo(a, relay)
+		}
+		time.Sleep(50 * time.Millisecond)
+		buf := make([]byte, 2000)
+		for i := 0; i < n; i++ {
+			_ = conn.SetReadDeadline(time.Now().Add(time.Second))
+			k, from, err := conn.ReadFrom(buf)
+			if err != nil {
+				rec.Violate("e2e-lost", phase+"/data-indication", "datagram %d of %d from an unbound port of a permitted host never surfaced at ReadFrom (%s, client over TCP: %v): %v", i, n, phase, overTCP, err)
+
+				return
+			}
+			if !bytes.Equal(buf[:k], sent[i]) || from.String() != alt.Addr.String() {
+				rec.Violate("e2e-altered", phase+"/data-indication", "datagram %d from %s: ReadFrom returned %d bytes %x from %s", i, alt.Addr, k, head(buf[:k]), from)
+
+				return
+			}
+		}
+		rec.EvN("e2e-data-indications-compared", n)
+	}
 	_, _ = conn.WriteTo([]byte("open"), peer.Addr) // permission + first ChannelBind attempt
 	time.Sleep(5 * time.Millisecond)
 	peer.UDP.Drain()
 	burst("indications-or-early-channel")
+	indications("early")
 	time.Sleep(2 * time.Second) // the binding is confirmed by now
 	burst("channel")
+	indications("with-channel-bound")
 	time.Sleep(pick(rng, []time.Duration{time.Second, 6 * time.Minute}))
 	burst("channel-later")
 	rec.SetSample(map[string]any{"kind": "real-client-bursts"})
